@@ -297,5 +297,39 @@ def fam_diffuse(ctx, rng):
     fam_object(ctx, rng, "diffuse")
 
 
+def fam_large_file(ctx, rng):
+    """Results whose file is well above a megabyte (a long recording on a fine frequency grid; a dense azimuth sweep)."""
+    import hvsrpy
+    kind = str(rng.choice(["traditional", "azimuthal"]))
+    if kind == "traditional":
+        f, amp, _ = gen.curve_set(rng, n_curves=int(rng.choice([90, 140])), n_freq=256)
+        f = np.geomspace(f[0], f[-1], 600)
+        amp = np.array([np.interp(np.log(f), np.log(np.geomspace(f[0], f[-1], 256)), a) for a in amp]) * (1 + 1e-3 * rng.random((amp.shape[0], 600)))
+        obj = hvsrpy.HvsrTraditional(f, amp, meta={"processing_method": "traditional"})
+    else:
+        f = np.geomspace(0.2, 30, 150)
+        lf = np.log(f)
+        hv = [hvsrpy.HvsrTraditional(f, 1 + rng.uniform(1, 5, (30, 1)) * np.exp(-0.5 * ((lf[None, :] - rng.uniform(lf[20], lf[-20], (30, 1))) / 0.2) ** 2)
+                                     + 0.01 * rng.random((30, 150))) for _ in range(12)]
+        obj = hvsrpy.HvsrAzimuthal(hv, np.arange(0, 180, 15.0).tolist(), meta={"processing_method": "azimuthal"})
+    steps = [["large-file"]]
+    r = histories.rand_range(rng, obj.frequency)
+    obj.update_peaks_bounded(search_range_in_hz=r)
+    steps.append(["range", list(r)])
+    if writable(obj):
+        round_trip(ctx, obj, kind, steps, rng)
+    hs = obj.hvsrs if kind == "azimuthal" else [obj]
+    ctx.describe(kind=kind, n_curves=[int(h.n_curves) for h in hs], n_freq=int(obj.frequency.size), steps=steps)
+    ctx.nontrivial(["large-file", kind, int(obj.frequency.size)])
+
+
+def or_large(fn):
+    """Whatever the family, the cases with index 5 mod 97 (about five per quick run) write a file above a megabyte."""
+    def run(ctx, rng):
+        return fam_large_file(ctx, rng) if ctx.every(97, 5) else fn(ctx, rng)
+    return run
+
+
 FAMILIES = [("masks-edited-separately", fam_masks_edited_separately), ("explicit-find-peaks-kwargs", fam_find_peaks_kwargs), ("traditional", fam_traditional), ("azimuthal", fam_azimuthal), ("diffuse-field", fam_diffuse),
             ("azimuthal-2", fam_azimuthal)]
+FAMILIES = [(n, or_large(f)) for n, f in FAMILIES]
